@@ -584,19 +584,9 @@ def check_correlation_backfill(ctx):
         n += 1
         truthy = any(isinstance(x, (ast.BoolOp, ast.IfExp))
                      for x in ast.walk(node.ast.value))
-        guarded = False
-        for g in cfg.nodes:
-            if g.kind == 'if' and g.id in rd.live:
-                t = g.ast.test
-                if isinstance(t, ast.Compare) and len(t.ops) == 1 \
-                        and isinstance(t.ops[0], ast.Is) and isinstance(
-                            t.comparators[0], ast.Constant) \
-                        and t.comparators[0].value is None \
-                        and 'avg_correlation' in unparse(t.left):
-                    for (tt, lab) in cfg.succ[g.id]:
-                        if lab == 'true' and (tt == node.id or
-                                              cfg.dominates(tt, node.id)):
-                            guarded = True
+        from ..core.guards import none_facts
+        is_none, _not_none = none_facts(cfg, rd, node.id)
+        guarded = any('avg_correlation' in unparse(e) for e in is_none)
         ok = guarded and not truthy
         ctx.ob(rule, f'{fi.qual}:inherit#{n - 1}', fi.loc(node.ast), ok,
                'inherited only where the value is None' if ok else
